@@ -12,7 +12,8 @@ GENS = [dict(max_n=4, nbest_max=6), dict(max_n=4, multi=True, nbest_max=8), dict
 
 
 def extra(ctx):
-    pass
+    import glue_checks
+    glue_checks.real_grammar_suite(ctx, {'valid', 'score'}, ctx.budget(100, 1000), nbest=True)
 
 
 def run(ctx):
